@@ -19,10 +19,10 @@ package main
 
 import (
 	"fmt"
-	"os"
 	"go/constant"
 	"go/token"
 	"go/types"
+	"os"
 	"sort"
 	"strconv"
 	"strings"
@@ -146,6 +146,11 @@ func (e *termEnv) computePath(v ssa.Value) string {
 	case *ssa.ChangeType:
 		return e.path(x.X)
 	case *ssa.Alloc:
+		// allocations of a new helper (stepped into by the walker) must not share names with the
+		// caller's: t0 of the helper is not t0 of the caller
+		if pf := x.Parent(); pf != nil && e.c != nil && e.c.IsNew(pf) {
+			return "alloc:" + pf.Name() + "." + x.Name()
+		}
 		return "alloc:" + x.Name()
 	case *ssa.Global:
 		return "G:" + x.Name()
